@@ -45,20 +45,22 @@ structure PlaneS (α : Type) where
   y : V3 α
 deriving DecidableEq, Repr
 
-/-- `Arc2D` (slots `_c`, `_r`, `_a1`, `_a2`). -/
+/-- `Arc2D` (slots `_c`, `_r`, `_a1`, `_a2` and the cached `_cos_a1` … `_sin_a2`). -/
 structure Arc2S (α : Type) where
   c : V2 α
   r : α
   a1 : α
   a2 : α
+  cos_a1 : α
+  sin_a1 : α
+  cos_a2 : α
+  sin_a2 : α
 deriving DecidableEq, Repr
 
-/-- `Arc3D` (slots `_plane`, `_r`, `_a1`, `_a2`). -/
+/-- `Arc3D` (slots `_plane`, `_arc2d`). -/
 structure Arc3S (α : Type) where
   plane : PlaneS α
-  r : α
-  a1 : α
-  a2 : α
+  arc2d : Arc2S α
 deriving DecidableEq, Repr
 
 /-- `Sphere` (slots `_center`, `_radius`). -/
